@@ -211,7 +211,8 @@ def log_odds_args(draw):
     ab = letters(protein)
     m = draw(st.integers(1, 12))
     syms = draw(st.lists(st.sampled_from(ab[:-1]), min_size=1, max_size=len(ab) - 1, unique=True))
-    counts = {c: draw(st.lists(st.integers(0, 60), min_size=m, max_size=m)) for c in syms}
+    cell = st.one_of(st.integers(0, 60), st.integers(0, 60), st.integers(0, 60), st.integers(0, 2 ** 31))
+    counts = {c: draw(st.lists(cell, min_size=m, max_size=m)) for c in syms}
     return {
         "protein": protein,
         "counts": counts,
@@ -634,6 +635,21 @@ def check_load_malformed(a, info):
     info.cls("foreign-format", a["reader_format"] not in (None, a["file"]["format"]))
 
 
+class ShortReads:
+    """Binary file-like object: read(n) hands out at most `piece` bytes per call, b"" at the end."""
+
+    def __init__(self, data, piece):
+        self.data, self.pos, self.piece = data, 0, max(1, piece)
+
+    def read(self, n=-1):
+        if n is None or n < 0:
+            n = len(self.data)
+        k = min(n, self.piece, len(self.data) - self.pos)
+        out = self.data[self.pos:self.pos + k]
+        self.pos += k
+        return out
+
+
 def check_load(a, info):
     format_, protein, records = a["format"], a["protein"], a["records"]
     ab = letters(protein)
@@ -646,8 +662,12 @@ def check_load(a, info):
             os.write(fd, data)
             os.close(fd)
             results = list(lightmotif.load(path, format=format_, protein=protein))
-        else:
+        elif a["via"] == "bytesio":
             results = list(lightmotif.load(io.BytesIO(data), format=format_, protein=protein))
+        else:
+            # a duck-typed binary file whose read(n) returns fewer bytes than asked for before the end of the
+            # data (pipes, sockets, decompressors): Python's read() contract allows that
+            results = list(lightmotif.load(ShortReads(data, a.get("piece", 7)), format=format_, protein=protein))
     finally:
         if path:
             os.unlink(path)
@@ -715,7 +735,7 @@ def load_args(draw):
                 if all(cols[c][i] == 0 for c in symbols):
                     cols[symbols[0]][i] = 1
         records.append({"name": draw(word), "desc": draw(st.one_of(st.none(), word)), "symbols": symbols, "cols": cols})
-    return {"format": format_, "protein": protein, "records": records, "crlf": draw(st.booleans()), "via": draw(st.sampled_from(["path", "bytesio"]))}
+    return {"format": format_, "protein": protein, "records": records, "crlf": draw(st.booleans()), "via": draw(st.sampled_from(["path", "bytesio", "short-reads"])), "piece": draw(st.sampled_from([1, 7, 100, 5000]))}
 
 
 @st.composite
@@ -756,7 +776,7 @@ SUBS = [
         pvalue_args(), check_pvalue, 300, 4000),
     Sub("reverse_complement", "DNA motif x sequence: reverse_complement() is the mirrored matrix, an involution, and scores position L-M-i of the reverse-complemented sequence like the original scores position i; non-trivial = width >= 2, non-palindromic, >= 1 position",
         revcomp_args(), check_revcomp, 200, 4000),
-    Sub("load", "1..5 records written in JASPAR / JASPAR 2016 / TRANSFAC / UniPROBE syntax (DNA and protein, symbol subsets, CRLF) loaded from a path or a BytesIO; names, metadata, counts and pwm / pssm rows equal the written data pushed through the definitions; non-trivial = >= 2 records",
+    Sub("load", "1..5 records written in JASPAR / JASPAR 2016 / TRANSFAC / UniPROBE syntax (DNA and protein, symbol subsets, CRLF) loaded from a path, a BytesIO or a duck-typed file object whose read() returns 1 / 7 / 100 / 5000 bytes at a time; names, metadata, counts and pwm / pssm rows equal the written data pushed through the definitions; non-trivial = >= 2 records",
         load_args(), check_load, 200, 4000),
     Sub("load-malformed", "a valid generated motif file with 1..3 byte / line mutations (truncation, substitution, deletion, insertion, line removal / duplication, invalid UTF-8 bytes), read by lightmotif.load through a BytesIO with its own or (1 in 4) a foreign format: the call must return motifs or raise ValueError / OSError / another ordinary exception, never PanicException (C15 seen from Python); non-trivial = an exception was raised",
         load_malformed_args(), check_load_malformed, 300, 6000),
